@@ -426,6 +426,8 @@ pub struct SysEvent {
     pub tok: String,
     pub asked: i64,
     pub result: i64,
+    /// index of the scheduled worker thread that made the call (thread scheduler on), else -1
+    pub thread: i32,
 }
 
 impl SysEvent {
@@ -434,7 +436,8 @@ impl SysEvent {
         let op = match self.op {
             'R' => "read",
             'W' => "write",
-            _ => "open",
+            'O' => "open",
+            _ => return None,
         };
         let k = self.tok.chars().next().unwrap_or('k');
         match k {
@@ -553,12 +556,13 @@ pub fn parse_syslog(p: &Path) -> Vec<SysEvent> {
     if let Ok(t) = std::fs::read_to_string(p) {
         for l in t.lines() {
             let f: Vec<&str> = l.split(' ').collect();
-            if f.len() == 4 {
+            if f.len() >= 4 {
                 v.push(SysEvent {
                     op: f[0].chars().next().unwrap_or('?'),
                     tok: f[1].to_string(),
                     asked: f[2].parse().unwrap_or(0),
                     result: f[3].parse().unwrap_or(0),
+                    thread: f.get(4).and_then(|t| t.strip_prefix('T')).and_then(|t| t.parse().ok()).unwrap_or(-1),
                 });
             }
         }
